@@ -20,7 +20,7 @@ TRUSTED_BASE = [
 ASSUMPTIONS = ["block rates in [0,1], multipliers in [0,10]; providers' units sum to at most the pool units (C02) for the lower bound"]
 UNPROVED = [
     "n-provider lower bound |paid_i - share_i*D| <= n*(1 + D*1e-18) after the running clamp: proved for the epoch bucket payout (bucket_amounts_fair, with fix F26) and for one pool's LPPD / depth-reward payout (pool_payouts_fair), any number of providers",
-    "depth split: the per-pool upper bound (reward <= weighted share of the block distribution + rounding) is proved for any number of pools (depth_reward_le_weighted_share) and the unclamped lower bound per pool (pool_distribution_ge_weighted_share); that the total weight td equals the sum of the pools' weights up to n/2 units of 1e-18 is judged (splitObservedOK), not proved",
+    "depth split: the per-pool upper bound (reward <= weighted share of the block distribution + rounding) is proved for any number of pools (depth_reward_le_weighted_share) and the unclamped lower bound per pool (pool_distribution_ge_weighted_share); the total weight td is the sum of the pools' weights up to n/2 units of 1e-18 (total_weight_is_weight_sum); the composition (share of the exact weight sum, all pools, with the remaining-amount clamp) is judged on every real EndBlocker (splitObservedOK), not stated as one theorem",
     "ineligible accounts receive nothing: judged on every L1 hook (recipientsOK), not proved as a theorem",
 ]
 MANIFEST = {
